@@ -58,6 +58,12 @@ macro_rules! flavour_impl {
                 match kind {
                     "clone" => return self.handle(&a[1]).clone(),
                     "graph" => return self.graph.as_ref().unwrap().get(&us(&a[1])).unwrap(),
+                    "found" => {
+                        let base = self.handle(&a[1]);
+                        let k = *self.nodes[us(&a[2])].key();
+                        let r = base.bfs().target(&k).search().unwrap();
+                        return r;
+                    }
                     _ => {}
                 }
                 sel!($kind, {
@@ -473,6 +479,14 @@ macro_rules! flavour_impl {
                             return Some(json!({"outcome": "deadlock", "returns": r["returns"], "hang": true}));
                         }
                         r
+                    }
+                    "edge_eq" => {
+                        let (u, i, v, j) = (us(&a[1]), us(&a[2]), us(&a[3]), us(&a[4]));
+                        sel!($kind, {
+                            json!(self.nodes[u].iter_out().nth(i).unwrap() == self.nodes[v].iter_out().nth(j).unwrap())
+                        }, {
+                            json!(self.nodes[u].iter().nth(i).unwrap() == self.nodes[v].iter().nth(j).unwrap())
+                        })
                     }
                     "cmp_nodes" => {
                         // [ka, kb, va, vb]: comparison traits of two fresh nodes (replay of a Kani counterexample)
